@@ -29,6 +29,12 @@ impl CE for String {
         ["", "a", "ab", "b"][(c as usize).min(3)].to_string()
     }
 }
+/// zero-sized element whose own Hash is not a no-op (it feeds its length prefix)
+impl CE for GenericArray<u8, U0> {
+    fn of(_c: i64) -> Self {
+        GenericArray::default()
+    }
+}
 impl CE for GenericArray<u8, U2> {
     fn of(c: i64) -> Self {
         GenericArray::from([c as u8 / 2, c as u8])
@@ -82,8 +88,8 @@ fn pair<T: CE, N: ArrayLength>(ety: &str, a: &[i64], b: &[i64], total: bool, out
     let _ = total;
     writeln!(
         out,
-        "{{\"ev\":\"cmp\",\"ety\":\"{}\",\"a\":{},\"b\":{},\"eq\":{},\"ne\":{},\"lt\":{},\"le\":{},\"gt\":{},\"ge\":{},\"pcmp\":{},\"seq\":{},\"sne\":{},\"slt\":{},\"sle\":{},\"sgt\":{},\"sge\":{},\"spcmp\":{}}}",
-        ety, list(a), list(b), x == y, x != y, x < y, x <= y, x > y, x >= y, ord(x.partial_cmp(&y)),
+        "{{\"ev\":\"cmp\",\"ety\":\"{}\",\"a\":{},\"b\":{},\"self_eq\":{},\"self_pcmp\":{},\"sself_eq\":{},\"eq\":{},\"ne\":{},\"lt\":{},\"le\":{},\"gt\":{},\"ge\":{},\"pcmp\":{},\"seq\":{},\"sne\":{},\"slt\":{},\"sle\":{},\"sgt\":{},\"sge\":{},\"spcmp\":{}}}",
+        ety, list(a), list(b), { let r = &x; r == r }, { let r = &x; ord(r.partial_cmp(r)) }, { let r = sx; r == r }, x == y, x != y, x < y, x <= y, x > y, x >= y, ord(x.partial_cmp(&y)),
         sx == sy, sx != sy, sx < sy, sx <= sy, sx > sy, sx >= sy, ord(sx.partial_cmp(sy))
     )
     .unwrap();
@@ -163,6 +169,7 @@ pub fn run(scn: &str, out: &mut dyn Write) {
             "i32" => by_len!(n, N => { pair::<i32, N>(ety, &a, &b, true, out); ordpair::<i32, N>(ety, &a, &b, out); if a == b { dbg::<i32, N>(ety, &a, out) } }),
             "f64" => by_len!(n, N => { pair::<f64, N>(ety, &a, &b, false, out); if a == b { dbg::<f64, N>(ety, &a, out) } }),
             "string" => by_len!(n, N => { pair::<String, N>(ety, &a, &b, true, out); ordpair::<String, N>(ety, &a, &b, out); if a == b { dbg::<String, N>(ety, &a, out) } }),
+            "nested0" => by_len!(n, N => { pair::<GenericArray<u8, U0>, N>(ety, &a, &b, true, out); ordpair::<GenericArray<u8, U0>, N>(ety, &a, &b, out); }),
             "nested" => by_len!(n, N => { pair::<GenericArray<u8, U2>, N>(ety, &a, &b, true, out); ordpair::<GenericArray<u8, U2>, N>(ety, &a, &b, out); if a == b { dbg::<GenericArray<u8, U2>, N>(ety, &a, out) } }),
             _ => panic!("HARNESS: cmp ety"),
         }
